@@ -74,6 +74,10 @@ def oracle(acc, text, case, kern_only_opts):
     if M >= 3:
         acc.nontriv(digest(text) + repr(sorted(kw)))
     pairs = [(a, b) for a in range(1, M + 1) for b in range(a, M + 1)] + [(a, None) for a in range(1, M + 1)] + [(None, b) for b in range(1, M + 1)]
+    marks = None
+    if M > 80:      # a very long score: every single measure, and every pair over the boundary values (powers of two and of ten, both ends)
+        marks = sorted(x for x in {1, 2, 3, 9, 10, 11, 63, 64, 65, 99, 100, 101, 127, 128, 129, 255, 256, 257, 258, 299, 300, 301, M - 2, M - 1, M} if 1 <= x <= M)
+        pairs = [(a, a) for a in range(1, M + 1)] + [(a, b) for a in marks for b in marks if a < b] + [(a, None) for a in marks] + [(None, b) for b in marks]
     for a, b in pairs:
         acc.count('transitions')
         acc.count('evaluations')
@@ -107,7 +111,7 @@ def oracle(acc, text, case, kern_only_opts):
     acc.count('traces')
     if not raised and sorted(singles) != sorted(alldata):
         acc.violation(Viol('partition', 'single-measure-exports-do-not-contain-every-data-line-exactly-once', case, len(alldata), len(singles)))
-    reversed_pairs = [(b_, a_) for a_ in range(1, M + 1) for b_ in range(a_ + 1, M + 1)] if M >= 10 else []     # every end-before-start pair of a long score
+    reversed_pairs = ([(b_, a_) for a_ in range(1, M + 1) for b_ in range(a_ + 1, M + 1)] if marks is None else [(b_, a_) for a_ in marks for b_ in marks if a_ < b_]) if M >= 10 else []     # every end-before-start pair of a long score
     for a, b in [(-1, 1), (-5, M), (1, M + 1), (1, M + 7), (2, 1), (M, M - 1), (-1, None), (None, M + 1), (M + 1, M + 1), (1, 10 * M + 1)] + reversed_pairs:
         if b == 0 or (a == 2 and M < 2):
             continue
@@ -247,6 +251,7 @@ def run(ctx):
     jobs += [(j[0], j[1], j[2], 1 + k % 4) for k, j in enumerate(jobs) if k % 7 == 0]   # blank-line variants
     ctx.pmap(_huge_job, [ctx.seed], workers=1)
     longs = D.long_kern_docs(ctx.seed) + [(['**kern', '**text'], j[1], ctx.seed) for j in D.long_kern_docs(ctx.seed, reps=(4,))[:1]]
+    longs += D.giant_jobs(ctx.seed, kern_only=True) + D.giant_jobs(ctx.seed + 1)      # ~1 900 lines, 350 measures
     ctx.pmap(_job, [[j] for j in longs] + list(X.chunks(jobs, 100)), chunksize=1)
 
 
